@@ -17,6 +17,7 @@
      node (same kind, key, outcome, value written, resulting documents) and every Ret the result it computes. *)
 EXTENDS ConfigRegistry, TraceLib
 
+CONSTANT Verbose          \* print a marker at every consumed line (to locate a scenario that is not accepted)
 VARIABLES l, sc, halt
 tvars == <<vars, l, sc, halt>>
 
@@ -60,7 +61,7 @@ PCrash == /\ Ev("Crash") /\ Halt
           /\ GhostCrash(N)
 PHang  == /\ Ev("Hang") /\ Halt          \* a follow-up that never returns: Recoverable is broken
           /\ okRec' = FALSE
-          /\ UNCHANGED <<impl, env, hist, abs, written, committed, chg, wr, solo, cleanStart, tainted, okLoad, okOwnLoad, okRej, okAck>>
+          /\ UNCHANGED <<impl, env, hist, abs, written, committed, chg, wr, solo, cleanStart, tainted, devs, okLoad, okOwnLoad, okRej, okAck>>
 PNext == PStart \/ PSt \/ PRet \/ PCrash \/ PHang
 PSpec == TInit /\ [][PNext]_tvars
 
@@ -95,6 +96,6 @@ CSpec == TInit /\ [][CNext]_tvars
 
 (* progress / acceptance markers read by checks/C15.py *)
 Progress == /\ ~halt
-            /\ PrintT(<<"AT", sc, l>>)
-            /\ (AtEnd => PrintT(<<"END", sc>>))
+            /\ (Verbose => PrintT(<<"AT", sc, l>>))
+            /\ (AtEnd => PrintT(<<"END", sc, devs>>))
 =============================================================================
